@@ -314,6 +314,14 @@ def gen_cases(rng, tier):
         b = lambda n_: ["t/col", [["varint", "astringb", n_]]]                          # noqa: E731
         for recs in ([a("abc", 1), b(7), a("x", 7), b(1)], [b(7), a("abc", 7), b(7), a("q", 2)]):
             cases.append({"src": src, "records": recs, "depth": 1})
+    # one constructor called several times in ONE expression with arguments that are equal as Python objects but not the
+    # same (1, 1.0, True): each call builds its own value
+    for src in ["string(1) == '1' and string(1.0) == '1.0' and string(True) == 'True'",
+                "string(True) == 'True' and string(1) == '1'", "string(0) == '0' and string(False) == 'False' and string(0.0) == '0.0'",
+                "wstring(1.0) == '1.0' and wstring(1) == '1'", "[string(1), string(1.0), string(True)] == ['1', '1.0', 'True']",
+                "varint(True) == 1 and string(varint(True)) == '1' and string(True) == 'True'"]:
+        # (bare type constructors exist in the interpreted engine's language only: `interp_only`)
+        cases.append({"src": src, "records": [gen_record(rng.fork("ctorseq"), "matching")], "depth": 1, "interp_only": True})
     # names that are not defined anywhere (not a field, helper or type) - among them proper PREFIXES of type names: Python
     # raises NameError; an engine may refuse, it may not make up a value
     for src in ["u", "dat", "strin", "var", "ne", "pa", "r.s == u", "r.n == 1 and dat", "not strin", "[ne, 1]", "foo", "r.s == x",
@@ -494,8 +502,12 @@ def run_real(case):
     isel, csel = Selector(case["src"]), CompiledSelector(case["src"])
     for name, fields in case["records"]:
         rec = SA.build_record(name, fields)
+        ns = _ref_namespace(rec)
+        if case.get("interp_only"):
+            from flow.record import fieldtypes as _ft
+            ns.update({"string": _ft.string, "wstring": _ft.wstring, "varint": _ft.varint})
         out.append({"interpreted": _res(lambda: isel.match(rec)), "compiled": _res(lambda: csel.match(rec)),
-                    "reference": _res(lambda: eval(code, _ref_namespace(rec)))})
+                    "reference": _res(lambda: eval(code, ns))})
     return {"per_record": out}
 
 
@@ -512,7 +524,7 @@ def oracle(case, obs):
             continue
         if "error" in ref:
             continue  # some sub-expression is not defined on this record: no expectation
-        for eng in ("interpreted", "compiled"):
+        for eng in (("interpreted",) if case.get("interp_only") else ("interpreted", "compiled")):
             e = o[eng]
             if "error" in e and case.get("outlang") and eng == "interpreted":
                 continue      # a refusal of a construct outside the language is fine; a wrong value is not
